@@ -116,7 +116,8 @@ func main() {
 		// (judged only on complete, violation-free runs of the whole sequential half)
 		if *flagOnly == "" && !seqCapped && r.NViolations() == 0 {
 			for _, l := range []string{"pool-size-reached", "future-size-reached", "account-queue-reached", "confidential-quota-exceeded:goodTxs",
-				"confidential-quota-exceeded:utxoTxs", "max-reap-size-exceeded", "reap-n-below-pool-content"} {
+				"confidential-quota-exceeded:utxoTxs", "max-reap-size-exceeded", "reap-n-below-pool-content",
+				"aged-entry:special-tx-older-than-Lifetime", "aged-entry:older-than-GoodTxDropTime", "two-special-txs-pooled"} {
 				if limits[l] == 0 {
 					vk.Fatalf("vacuous bound: no explored history reaches the limit %q", l)
 				}
